@@ -1512,6 +1512,38 @@ impl PeerConnection {
             }
         }
 
+        // SDES-SRTP: start the direct transport towards the remote address (the last
+        // "IN IP4" connection address of the description) before anything is recorded, so
+        // that a failure here leaves the connection as it was.
+        if self.config().transport_mode == TransportMode::Srtp
+            && !(previous_remote.is_some() && !media_parameters_changed)
+        {
+            let mut remote_addr = None;
+            for section in &desc.media_sections {
+                let conn_opt = section
+                    .connection
+                    .as_ref()
+                    .or(desc.session.connection.as_ref());
+                if let Some(conn) = conn_opt {
+                    let parts: Vec<&str> = conn.split_whitespace().collect();
+                    if parts.len() >= 3
+                        && parts[0] == "IN"
+                        && parts[1] == "IP4"
+                        && let Ok(ip) = parts[2].parse::<std::net::IpAddr>()
+                    {
+                        remote_addr = Some(std::net::SocketAddr::new(ip, section.port));
+                    }
+                }
+            }
+            if let Some(addr) = remote_addr {
+                self.inner
+                    .ice_transport
+                    .start_direct(addr)
+                    .await
+                    .map_err(|e| crate::RtcError::Internal(format!("ICE direct error: {}", e)))?;
+            }
+        }
+
         // Update next_mid to avoid collisions with remote MIDs
         for section in &desc.media_sections {
             if let Ok(mid_val) = section.mid.parse::<u16>() {
@@ -1610,7 +1642,6 @@ impl PeerConnection {
         let mut ufrag = None;
         let mut pwd = None;
         let mut candidates = Vec::new();
-        let mut remote_addr = None;
 
         // Check session-level attributes for ICE credentials
         for attr in &desc.session.attributes {
@@ -1622,23 +1653,6 @@ impl PeerConnection {
         }
 
         for section in &desc.media_sections {
-            if self.config().transport_mode != TransportMode::WebRtc {
-                let conn_opt = section
-                    .connection
-                    .as_ref()
-                    .or(desc.session.connection.as_ref());
-                if let Some(conn) = conn_opt {
-                    let parts: Vec<&str> = conn.split_whitespace().collect();
-                    if parts.len() >= 3
-                        && parts[0] == "IN"
-                        && parts[1] == "IP4"
-                        && let Ok(ip) = parts[2].parse::<std::net::IpAddr>()
-                    {
-                        remote_addr = Some(std::net::SocketAddr::new(ip, section.port));
-                    }
-                }
-            }
-
             for attr in &section.attributes {
                 if attr.key == "ice-ufrag" {
                     ufrag = attr.value.clone();
@@ -1670,17 +1684,10 @@ impl PeerConnection {
                     self.inner.ice_transport.add_remote_candidate(candidate);
                 }
             }
-        } else if self.config().transport_mode == TransportMode::Rtp {
-            // Direct RTP setup is deferred until media sections have been matched
-            // to transceivers. Non-BUNDLE audio/video need separate sockets.
-        } else if let Some(addr) = remote_addr {
-            // SRTP mode: use ICE start_direct
-            self.inner
-                .ice_transport
-                .start_direct(addr)
-                .await
-                .map_err(|e| crate::RtcError::Internal(format!("ICE direct error: {}", e)))?;
         }
+        // Direct RTP setup is deferred until media sections have been matched to
+        // transceivers (non-BUNDLE audio/video need separate sockets); SDES-SRTP started
+        // its direct transport right after the state check above.
 
         // Create transceivers for new media sections in Offer
         if desc.sdp_type == SdpType::Offer {
